@@ -19,6 +19,23 @@ CHECKS = {
        "difference is a violation. Exploration is the right level: the domain is an unbounded product space with a cheap exact oracle.",
   design_ref="DESIGN.md 4.1, 4.2, 5/C01, 6", note=KERNEL_NOTE,
   technique="property-based testing (Hypothesis) against a closed-form reference model"),
+ "C03": dict(
+  category="exploration",
+  text="Generated problems pushed through rejection_sample with a recording Generator (in memory) or a recording pool that wraps "
+       "the per-batch child generators (cache/file path): the (mean, cov, size) arguments of every multivariate_normal call are "
+       "compared with the closed-form conditional posterior (a, A, n_linear_samples), the returned linear columns with the recorded "
+       "draws (column order, units) and the nonlinear columns with the input row. A second, interposition-free search tests >=4000 "
+       "draws per row against N(a, A) (KS / mean / covariance / lag-1, p<1e-9). Defects F1-F5 recognised by exact signatures.",
+  design_ref="DESIGN.md 4.2, 4.3, 5/C03, 6", note=KERNEL_NOTE + " numpy's multivariate_normal is trusted to draw from the (mean, cov) it is given.",
+  technique="property-based testing: captured-argument differential against closed form + statistical goodness-of-fit"),
+ "C07": dict(
+  category="exploration",
+  text="Metamorphic testing over unit assignments: a problem in canonical units and a twin with every unit slot (data, each prior "
+       "parameter, P0/sigma_K0/max_K, jitter, each library column) redrawn; checks the Jacobian-constant relation of the likelihood, "
+       "equality of the accepted set for equal seeds and the scaling of the (mean, cov) of the linear draw. F4 (P0 unit) recognised "
+       "by its exact closed-form signature.",
+  design_ref="DESIGN.md 5/C07, 6", note=KERNEL_NOTE,
+  technique="metamorphic property-based testing (unit-transformed twins)"),
  "C08": dict(
   category="exploration",
   text="Generated multi-survey inputs (1-4 surveys, all time layouts, list/tuple/dict, units) with tagged observations: merged multiset, "
